@@ -25,6 +25,42 @@ func (c *Ctx) posOf(p token.Pos) string {
 	return fmt.Sprintf("%s:%d", strings.TrimPrefix(pp.Filename, c.P.Dir+"/"), pp.Line)
 }
 
+// addObl records a proof obligation - unless the path is inside the body of a loop declared `loop K abstract`
+// (such a loop is cut like any other, but what happens inside its body is not verified; reported as an assumption).
+func (c *Ctx) addObl(s *State, o *Obligation) {
+	if s != nil {
+		if k := s.inAbstractLoop(); k > 0 {
+			c.skippedAbs[k]++
+			return
+		}
+	}
+	c.Obls = append(c.Obls, o)
+}
+
+func (s *State) inAbstractLoop() int {
+	fr := s.Frame
+	if fr == nil || s.C.Spec == nil {
+		return 0
+	}
+	for fr.Caller != nil {
+		fr = fr.Caller
+	}
+	li := s.C.loopInfo(fr.Fn)
+	if li == nil {
+		return 0
+	}
+	for _, l := range li.loops {
+		ls := s.C.Spec.Loops[l.Ordinal]
+		if ls == nil || !ls.Abstract {
+			continue
+		}
+		if fr.Entered[l.Head] && l.Body[fr.Block] && fr.Block != l.Head {
+			return l.Ordinal
+		}
+	}
+	return 0
+}
+
 func (s *State) oblige(kind, desc, pos string, goal Term) {
 	if goal == "true" {
 		// still count it: trivially discharged
@@ -32,7 +68,7 @@ func (s *State) oblige(kind, desc, pos string, goal Term) {
 	c := s.C
 	base := c.Key + "/" + kind
 	o := &Obligation{Name: base, Kind: kind, Func: c.Key, Desc: desc, Pos: pos, Path: s.Path, Goal: goal, PathID: s.PathID}
-	c.Obls = append(c.Obls, o)
+	c.addObl(s, o)
 }
 
 // obligeExpr proves a contract clause: split into goals, each with its own hypotheses.
@@ -53,7 +89,7 @@ func (s *State) obligeExpr(kind, desc, pos string, env *SpecEnv, x Expr, where s
 			k = fmt.Sprintf("%s.c%d", kind, i+1)
 		}
 		o := &Obligation{Name: s.C.Key + "/" + k, Kind: k, Func: s.C.Key, Desc: desc, Pos: pos, Path: path, Goal: g.Goal, PathID: s.PathID}
-		s.C.Obls = append(s.C.Obls, o)
+		s.C.addObl(s, o)
 	}
 }
 
@@ -143,7 +179,7 @@ func (c *Ctx) verify() (err error) {
 		}
 	}
 	// vacuity
-	c.Obls = append(c.Obls, &Obligation{Name: c.Key + "/vac", Kind: "vac", Func: c.Key, Desc: "preconditions satisfiable", Path: s.Path, Goal: "false", ExpectSat: true})
+	c.addObl(s, &Obligation{Name: c.Key + "/vac", Kind: "vac", Func: c.Key, Desc: "preconditions satisfiable", Path: s.Path, Goal: "false", ExpectSat: true})
 	s.runGhost(fr, "entry")
 	work := []*State{s}
 	deadline := time.Now().Add(90 * time.Second)
@@ -1485,7 +1521,7 @@ func (s *State) execReturn(r *ssa.Return) ([]*State, bool) {
 		return nil, false
 	}
 	// top-level return: postconditions
-	c.Obls = append(c.Obls, &Obligation{Name: fmt.Sprintf("%s/reach@return:%s", c.Key, c.posOf(r.Pos())), Kind: "reach", Func: c.Key, Desc: "this return is reachable on at least one path (otherwise its postconditions hold vacuously)", Pos: c.posOf(r.Pos()), Path: s.Path, Goal: "false", ExpectSat: true, PathID: s.PathID})
+	c.addObl(s, &Obligation{Name: fmt.Sprintf("%s/reach@return:%s", c.Key, c.posOf(r.Pos())), Kind: "reach", Func: c.Key, Desc: "this return is reachable on at least one path (otherwise its postconditions hold vacuously)", Pos: c.posOf(r.Pos()), Path: s.Path, Goal: "false", ExpectSat: true, PathID: s.PathID})
 	env := c.funcEnv(s, fr, true)
 	sig := fr.Fn.Signature
 	resVars := map[string]TV{}
@@ -1559,7 +1595,7 @@ func (s *State) runGhost(fr *Frame, anchor string) {
 			before := s.Path
 			s.assert(t)
 			// an assumption that contradicts what is known would make the rest of the path vacuous
-			c.Obls = append(c.Obls, &Obligation{Name: fmt.Sprintf("%s/vac-assume@%s", c.Key, sanitize(anchor)), Kind: "vac", Func: c.Key, Desc: "assumptions still satisfiable after `assume " + g.Src + "`", Pos: fmt.Sprintf("%s:%d", g.File, g.Line), Path: s.Path, Before: before, Goal: "false", ExpectSat: true, PathID: s.PathID})
+			c.addObl(s, &Obligation{Name: fmt.Sprintf("%s/vac-assume@%s", c.Key, sanitize(anchor)), Kind: "vac", Func: c.Key, Desc: "assumptions still satisfiable after `assume " + g.Src + "`", Pos: fmt.Sprintf("%s:%d", g.File, g.Line), Path: s.Path, Before: before, Goal: "false", ExpectSat: true, PathID: s.PathID})
 		case "set":
 			v, err := env.evalAny(g.E)
 			if err != nil {
@@ -1741,7 +1777,7 @@ func (s *State) checkFrame(env *SpecEnv, pos string) {
 		}
 		o := &Obligation{Name: c.Key + "/frame:" + n, Kind: "frame:" + n, Func: c.Key, Desc: "objects that existed at entry and are not named in modifies keep their " + n, Pos: pos, Path: path,
 			Goal: fmt.Sprintf("(= (select %s %s) (select %s %s))", cur, r, init, r), PathID: s.PathID}
-		c.Obls = append(c.Obls, o)
+		c.addObl(s, o)
 	}
 }
 
